@@ -114,8 +114,15 @@ func (e *integEngine) checkC19() {
 		c.Counters["c19_raw_bytes"] += len(global)
 	case "prefixed":
 		payload := map[string][]byte{}
+		rawGot := map[string][]byte{}
 		for _, w := range sunk {
 			writer := w.By // the execution (= task, in these worlds) whose goroutine wrote the line
+			if t := e.w.Task(writer); t != nil && t.Interactive {
+				// an interactive task owns the terminal: its bytes pass through unchanged, whatever
+				// the format - and only its bytes
+				rawGot[writer] = append(rawGot[writer], w.Data...)
+				continue
+			}
 			line := w.Data
 			if !bytes.HasSuffix(line, []byte("\r\n")) {
 				c.Violate("C19", "prefixed-not-whole-line", "prefixed output: a write to the sink is not one whole line: %s", quoteShort(line))
@@ -144,6 +151,13 @@ func (e *integEngine) checkC19() {
 			c.Count("c19_prefixed_lines")
 		}
 		for _, t := range e.w.Tasks {
+			if t.Interactive {
+				if !bytes.Equal(rawGot[t.Name], perTask[t.Name]) {
+					c.Violate("C19", "raw-not-verbatim", "interactive task %s under the prefixed format: the sink received %d bytes %s, the task wrote %d bytes %s", t.Name, len(rawGot[t.Name]), quoteShort(rawGot[t.Name]), len(perTask[t.Name]), quoteShort(perTask[t.Name]))
+				}
+				c.Count("c19_interactive_tasks_under_prefixed")
+				continue
+			}
 			want := normaliseStream(perTask[t.Name])
 			got := normaliseStream(payload[t.Name])
 			if !bytes.Equal(got, want) {
@@ -305,6 +319,7 @@ func GenOutputWorld(ch *Choices, thorough bool) *IntegWorld {
 			}
 		}
 		w.Plans[id] = pl
+		t.Interactive = ch.Bool(1, 8, "interactive")
 		w.Tasks = append(w.Tasks, t)
 		w.Drivers = append(w.Drivers, DriverSpec{Kind: "task", Target: nm})
 	}
